@@ -365,4 +365,17 @@ theorem step_isEmail_ok (be : Backend) (b : Build) (c : Conv) (hc : c.rc = 0 →
   simp only [step, h1, hmm, h2]
   exact ⟨_, rfl⟩
 
+/-! ### the claims are not vacuous: the model does fault when the contract is broken, and the contracts are satisfiable -/
+
+/-- without a terminator behind the string the hyphen look-ahead of `is_ascii_domain` runs off the buffer -/
+example : isAsciiDomain false [97, 45] [] = .error .oob := by decide
+/-- … and the `strspn` of `is_ipv4` too (`0.0` with nothing behind it) -/
+example : isIpv4 [48, 46, 48] [] = .error .oob := by decide
+/-- a converter that reports success without handing out a buffer makes `is_utf8_domain` call `strlen (NULL)` -/
+example : isUtf8Domain {} (fun _ => ⟨0, none⟩) [97] false = .error .oob := by decide
+/-- the two kinds of converter the library meets satisfy the contract -/
+example : ConvContract (fun x => ⟨0, some (lowerAll x)⟩) := fun _ _ => rfl
+example : ConvContract (fun _ => ⟨-304, none⟩) := by
+  intro d h; simp at h
+
 end Eav.Props.C06
